@@ -52,25 +52,26 @@ CLAIMS.update({
    note=NOTE + "Partial: the closed solo-completion bound B(number of nodes) is not yet one theorem; it is searched by the freeze sweeps (3000-step budget).",
    technique="Rocq/Coq proof (frame-locality lemmas) + trace correspondence + solo-completion sweeps"),
  "C11": dict(engine="ASModel",
-   text="Coq theorems over ASModel: the in_use word of a node changes only by COOLDOWN->UNUSED (never from USED), by the claiming compare-exchange "
-        "UNUSED->USED which in the same step makes the node the claimer's node, by pushing a fresh node as its creator's, and by start_cooldown of "
-        "its holder; no other step touches any in_use or any thread's node (exec_inuse); the holder's node assertion is stable under all other "
-        "threads' steps; sequential churn provably reuses one node (computed example). " + TIE + " Programs with thread join/exit/re-claim; node "
-        "count and in_use/writers words compared in the final state.",
-   note=NOTE + "Partial: the induction assembling 'at most one holder per node' (Inv.WF) over schedules is not finished. Known finding D7 (literal "
-        "bound <= peak live threads is false when a writer sits inside a cooling node) is listed in known_findings.txt and printed as KNOWN-FINDING. "
-        "Operations after TLS destruction (temporary LocalNode) are not modelled.",
-   technique="Rocq/Coq proof (ownership-transition lemmas) + trace correspondence"),
+   text="Coq theorem C11_exclusive over ASModel: in EVERY reachable state (any schedule, any number of threads ever started, any programs) a "
+        "debt node has at most one holder - the thread whose LocalNode points to it or the thread running its cooldown - and in_use = USED exactly "
+        "when it has one (clause of the inductive invariant InvStep.WF2); the in_use word changes only by COOLDOWN->UNUSED, by the claiming "
+        "compare-exchange (which makes the node the claimer's in the same step), by pushing a fresh node, and by its holder's start_cooldown; "
+        "sequential churn provably reuses one node (computed example). " + TIE + " Programs with thread join/exit/re-claim; node count and "
+        "in_use/writers words compared in the final state; strictly sequential churn must not allocate a second node.",
+   note=NOTE + "Known finding D7 (the literal bound <= peak live threads is false when a writer sits inside a cooling node; under an adversarial "
+        "scheduler the node count is not bounded by the peak at all) is listed in known_findings.txt and printed as KNOWN-FINDING. Operations after "
+        "TLS destruction (temporary LocalNode) are not modelled.",
+   technique="Rocq/Coq proof (inductive invariant over all schedules) + trace correspondence"),
  "C13": dict(engine="ASModel",
-   text="Coq theorems over ASModel, Owicki-Gries style, for every state, every scheduler choice, both debug settings and every value of the "
-        "generation counter: if the acting thread's node satisfies the assertion of its top frame (Inv.top_ok) its step does not panic - every "
-        "expect/assert/debug_assert/unreachable of the modelled code is a panic outcome - and establishes the next frame's assertion, including the "
-        "wrap step and the cooldown after it; assertions are stable under all other threads' steps (interference freedom); ownership and table "
-        "invariants are preserved; a concrete run through the wrap is computed in Coq. " + TIE + " Programs preset the counter 0-3 transactions "
-        "before the wrap (verif::set_generation), with and without helpers.",
-   note=NOTE + "Partial: the induction over schedules assembling the proved obligations into `no panic in any run` (Inv.WF) is not finished. "
-        "Arc counter overflow and allocation failure are out of scope.",
-   technique="Rocq/Coq proof (Owicki-Gries obligations: local correctness + interference freedom) + trace correspondence"),
+   text="Coq theorem C13_total over ASModel: NO step of ANY run from ANY initial configuration (any containers, any number of threads, any "
+        "programs, any schedule, fast or fallback-only strategy, debug assertions on or off, any value of the generation counter) emits a panic "
+        "- every expect/assert/debug_assert/unreachable of the modelled code is a panic outcome of the step function - proved by an inductive "
+        "invariant (InvStep.WF2: node ownership, per-program-point assertions on control word / helping slot / active address, well-formed control "
+        "words and handover spaces, LocalNode::with nesting) with Owicki-Gries local correctness and interference freedom; WF2 holds in every "
+        "reachable state, also after the generation wrap; a concrete run through the wrap is computed. " + TIE + " Programs preset the counter "
+        "0-3 transactions before the wrap (verif::set_generation), with and without helpers.",
+   note=NOTE + "Arc counter overflow and allocation failure are out of scope; unwinding of user panics is C18; hanging is C08/C09.",
+   technique="Rocq/Coq proof (inductive invariant over all schedules, Owicki-Gries) + trace correspondence"),
  "C16": dict(engine="ASModel",
    text="Coq theorems over ASModel (local step theorems): Cache::load returns the cached value untouched when the stored pointer equals it and "
         "otherwise performs exactly one load_full, releasing the previously cached value exactly once. " + TIE + " The oracle checks every "
@@ -116,6 +117,21 @@ CLAIMS.update({
    technique="Rocq/Coq proof + sequential differential correspondence"),
 })
 
+ 
+CLAIMS["C19"] = dict(engine="AutoTraits",
+   text="Coq theorems (no axioms) over Marker/AutoTraits.v, Rust's Send/Sync auto-trait rules as total boolean functions on the crate's struct "
+        "definitions, explicit Send/Sync impls and associated-type resolutions, which tools/gen_types.py regenerates from /repo/src on every run and "
+        "which refuses on anything it cannot render. For 22 wrapper shapes x 9 pointer kinds x 3 strategies x all Send/Sync valuations of the pointee "
+        "and other parameters, plus 13 fully-parametric or type-erased shapes: a wrapper is Send/Sync only if what it stores is (C19_sound, "
+        "C19_sound_ref, C19_guard_debt), exactly iff (C19_exact), and is Send+Sync when the pointer and stored parameters are (C19_complete). The same "
+        "matrix is printed by the extracted Coq code and decided by rustc against /repo every run (quick 20 422 cells, thorough the full 63 190): the "
+        "model's verdict must equal rustc's on every (type, trait) pair, and the property is also evaluated directly on rustc's verdicts to produce a "
+        "concrete unsound or incomplete instantiation with a replay program.",
+   note="The auto-trait rules are a trusted rendering, validated exhaustively against rustc 1.95 on the matrix but not proved; w_spec (what each "
+        "wrapper stores) is hand-written; features weak + internal-test-strategies, experimental-thread-local out of scope; parametricity in the "
+        "pointee is assumed (4 leaf types plus an opaque user RefCnt kind); private types reach rustc only through Guard.",
+   technique="Rocq/Coq proof by kernel-checked exhaustive case analysis (vm_compute + forallb_forall) over a regenerated type table + translation validation against rustc")
+
 REASONS = {}
 
 def main():
@@ -130,6 +146,7 @@ def main():
               "kind_free_text": "Coq 8.16 development: executable model of the crate (one atomic access per step) + theorems; extracted to OCaml for trace replay; harness/conc runs the real crate under a controlled scheduler"},
              {"name": "RefCntModel", "path": "/verif/coq/Seq", "serves_properties": ["C15"], "kind_free_text": "Coq model of std Arc/Rc/Weak + the RefCnt impls; harness/refcnt differential run"},
              {"name": "AccessModel", "path": "/verif/coq/Seq", "serves_properties": ["C17"], "kind_free_text": "Coq model of src/access.rs over a sequential store; harness/seqx differential run"},
+             {"name": "AutoTraits", "path": "/verif/coq/Marker", "serves_properties": ["C19"], "kind_free_text": "Coq model of Rust's auto-trait rules over a type table regenerated from /repo by tools/gen_types.py; harness/marker validates against rustc"},
              {"name": "SerdeModel", "path": "/verif/coq/Seq", "serves_properties": ["C20"], "kind_free_text": "Coq model of src/serde.rs; harness/seqx differential run"},
          ],
          "checks": [], "not_applicable": [],
